@@ -18,19 +18,21 @@ without having been returned; and at most the last returned update is still outs
 namespace VivProps.C01
 open Viv.Sched
 
-/-- **Exactly once, in order** (every reachable state of every run): for each process the checker
+/-- **Exactly once, in order** (every reachable state of every run, for every sequence of calls whatever —
+any lengths, zero included, forced or not): for each process the checker
 accepts the whole log, the process has been invoked `nInv` times, and the only update not yet
 applied is the one its front holds as pending, due at the front's time. -/
 theorem exactly_once (c : Cfg) (hb : PosBeh c.beh) (t0 : Int) (pids : List Pid) (hnd : pids.Nodup)
     (layers : List (List Sid)) (store : Store) (calls : List (Nat × Bool))
-    (hpos : ∀ cf ∈ calls, 0 < cf.1) (s' : St)
+    (s' : St)
     (hrun : runCalls c calls (init c t0 pids layers store) = some s') :
     ∀ pf ∈ s'.fronts,
       wfLog pf.1 s'.log = some (pf.2.nInv, pf.2.pending.map (fun u => (pf.2.time, u))) := by
-  have h := runCalls_preserves c hb Paired (fun s t hp => hp)
-    (fun endT s force hp hinv hlt => iter_paired c hb endT s force hp hinv hlt)
+  have h := runCalls_preserves0 c hb Paired (fun s t hp => hp)
+    (fun endT s force hp hinv _ => iter_paired' c hb endT s force hp hinv)
+    (fun s hp hinv _ => iter_paired' c hb s.gt s true hp hinv)
     calls _ s' hrun (init_paired c t0 pids layers store hnd)
-    (VivProps_C03_init_inv c t0 pids layers store) hpos
+    (VivProps_C03_init_inv c t0 pids layers store) (init_noPending c t0 pids layers store)
   exact h.1.2
 where
   VivProps_C03_init_inv (c : Cfg) (t0 : Int) (pids : List Pid) (layers : List (List Sid)) (store : Store) :
@@ -68,15 +70,15 @@ theorem accepted_applies_on_time (p : Pid) (evs : List Ev)
           · simp only [hc, if_false] at hr; rw [chk_none] at hr; subst hr; simp at hsome
     · exact ih _ hr t due u h
 
-/-- **Applied on time**: in every reachable log, every application of an update of a live process
+/-- **Applied on time**: in every reachable log (any sequence of calls whatever), every application of an update of a live process
 happens at exactly the global time at which the interval it was computed for ends. -/
 theorem applied_on_time (c : Cfg) (hb : PosBeh c.beh) (t0 : Int) (pids : List Pid) (hnd : pids.Nodup)
     (layers : List (List Sid)) (store : Store) (calls : List (Nat × Bool))
-    (hpos : ∀ cf ∈ calls, 0 < cf.1) (s' : St)
+    (s' : St)
     (hrun : runCalls c calls (init c t0 pids layers store) = some s')
     (p : Pid) (f : Front) (hp : (p, f) ∈ s'.fronts) (t due : Int) (u : Upd)
     (hev : Ev.apply p t due u ∈ s'.log) : t = due := by
-  have h := exactly_once c hb t0 pids hnd layers store calls hpos s' hrun (p, f) hp
+  have h := exactly_once c hb t0 pids hnd layers store calls s' hrun (p, f) hp
   exact accepted_applies_on_time p s'.log _ _ h (by simp) t due u hev
 
 /-- **Nothing is lost**: when a `run_for`/`update` call returns, no returned update is left
